@@ -56,6 +56,16 @@ pub use config::DsvConfig;
 pub use cursor::{DsvCursor, DsvFields, DsvRow, DsvRows};
 pub use index::DsvIndex;
 
+/// Verification hook: build the crate-private lightweight index from raw words.
+#[cfg(feature = "verif-hooks")]
+pub(crate) fn verif_index_lightweight_new(
+    markers: Vec<u64>,
+    newlines: Vec<u64>,
+    text_len: usize,
+) -> index_lightweight::DsvIndexLightweight {
+    index_lightweight::DsvIndexLightweight::new(markers, newlines, text_len)
+}
+
 // Use SIMD parser by default on supported platforms
 #[cfg(any(target_arch = "aarch64", target_arch = "x86_64"))]
 pub use simd::build_index_simd as build_index;
